@@ -514,6 +514,10 @@ def run(ctx, V):
     par_cases = [c for c in cases if c[0] == 2 and c[1] >= 2][: (6 if tier == "quick" else 40)]
     # make sure an accept-but-childless tile one level above the leaves is among them
     par_cases.append((2, 3, ((1, 0, 0), (2, 0, 0), (2, 1, 1), (3, 0, 0), (3, 1, 1)), (0, 0, 0), False))
+    # generic pyramids (their leaves carry no Tile object), a generic sub-pyramid, and the one-tile TOAST
+    # pyramid of depth 0: seeded change C13-o queued a leaf for the workers only when it had a Tile
+    par_cases += [(0, 2, (), (0, 0, 0), False), (0, 3, (), (1, 1, 0), True), (0, 0, (), (0, 0, 0), False),
+                  (1, 0, (), (0, 0, 0), False), (1, 2, (), (0, 0, 0), False)]
     for c in par_cases:
         kind, depth, table, apex, sub = c
         d = common.workdir() / f"c13par{n_par}"
